@@ -294,6 +294,9 @@ func channelPassThrough(T *Terms, op *CtxOp) (bool, string) {
 	if op.Closure == nil || op.IOCall == nil || op.Select == nil || op.ResIdx < 0 {
 		return false, "operation shape not recognised"
 	}
+	if op.closes() {
+		return memoryPassThrough(T, op)
+	}
 	iov, ok := op.IOCall.(ssa.Value)
 	if !ok {
 		return false, "I/O call has no value"
@@ -459,4 +462,100 @@ func ctxioFrameReadRules(r *Run, p *Prog, T *Terms, cg *CallGraph, rule string) 
 		ok, why := channelPassThrough(T, op)
 		r.Ob(rule, fn, "the bytes read are returned unchanged", op.Fn.Pos(), ok, why)
 	}
+}
+
+// memoryPassThrough: the helper signals completion by closing its channel and hands the outcome over in memory: it
+// stores result i of the I/O call into member m_i of one object of the operation (before the close), and the operation
+// returns, on the result branch of the select, the members m_0, m_1, ... of that object in order.
+func memoryPassThrough(T *Terms, op *CtxOp) (bool, string) {
+	iov, ok := op.IOCall.(ssa.Value)
+	if !ok {
+		return false, "I/O call has no value"
+	}
+	nres := 1
+	if tup, ok := iov.Type().(*types.Tuple); ok {
+		nres = tup.Len()
+	}
+	// the object: what the helper's member stores are rooted in (a captured variable of the operation)
+	var obj ssa.Value
+	member := map[int]int{}
+	closed := false
+	for _, b := range op.Closure.Blocks {
+		for _, in := range b.Instrs {
+			if c, isCall := in.(*ssa.Call); isCall {
+				if bi, isB := c.Call.Value.(*ssa.Builtin); isB && bi.Name() == "close" {
+					closed = true
+				}
+			}
+			st, ok := in.(*ssa.Store)
+			if !ok {
+				continue
+			}
+			fa, ok := st.Addr.(*ssa.FieldAddr)
+			if !ok {
+				return false, "the helper stores to something other than a member of the outcome object"
+			}
+			if closed {
+				return false, "the helper writes the outcome after signalling completion"
+			}
+			root := T.resolveFree(fa.X)
+			if obj != nil && root != obj {
+				return false, "the helper stores its outcome into more than one object"
+			}
+			obj = root
+			found := -1
+			for i := 0; i < nres; i++ {
+				if ex, isEx := st.Val.(*ssa.Extract); isEx && ex.Tuple == iov && ex.Index == i {
+					found = i
+				}
+				if nres == 1 && st.Val == iov {
+					found = 0
+				}
+			}
+			if found < 0 {
+				return false, fmt.Sprintf("member %s of the outcome is not a result of the I/O call", fieldName(fa.X, fa.Field))
+			}
+			if old, dup := member[found]; dup && old != fa.Field {
+				return false, fmt.Sprintf("result #%d of the I/O call is stored in two members", found)
+			}
+			member[found] = fa.Field
+		}
+	}
+	for i := 0; i < nres; i++ {
+		if _, ok := member[i]; !ok {
+			return false, fmt.Sprintf("result #%d of the I/O call is not handed to the operation", i)
+		}
+	}
+	if obj == nil {
+		return false, "outcome object not found"
+	}
+	n := 0
+	for _, rv0 := range returnedValues(op.Fn, 0) {
+		b := rv0.Ret.Block()
+		onRes := false
+		for d := b; d != nil; d = d.Idom() {
+			if k, ok := selectIndexEdge(d, op.Select); ok && k == op.ResIdx && reachableWithout(d.Succs[0], d)[b] && !reachableWithout(d.Succs[1], d)[b] {
+				onRes = true
+			}
+		}
+		if !onRes {
+			continue
+		}
+		n++
+		for i, res := range rv0.Ret.Results {
+			ok := false
+			if ld, isLd := res.(*ssa.UnOp); isLd {
+				if fa, isFa := ld.X.(*ssa.FieldAddr); isFa && fa.Field == member[i] && fa.X == obj {
+					ok = true
+				}
+			}
+			if !ok {
+				return false, fmt.Sprintf("return value #%d on the result path is %s, not the member of the outcome object that carries result #%d of the I/O call", i, strip(T.T(res)), i)
+			}
+		}
+	}
+	if n == 0 {
+		return false, "no return on the result branch of the select"
+	}
+	return true, "helper result handed over in memory published by closing the channel, member by member"
 }
